@@ -13,7 +13,7 @@ from vf.core import Reject, check_close, check_equal
 
 RULE = (
   "case = rich model (contacts on a plane, limits, equalities, tendons, actuators) x batch of 2-5 worlds with different qpos/qvel/ctrl/applied "
-  "forces/mocap/eq_active x permutation x history of 1-6 steps with per-step control changes; oracle: every world's trajectory in the batch is bit-identical "
+  "forces/mocap/eq_active (a third of the cases with sleeping enabled and a different set of islands asleep in every world) x permutation x history of 1-6 steps with per-step control changes; oracle: every world's trajectory in the batch is bit-identical "
   "(Newton+sparse: first step only, solver outputs to 2e-3 because its Hessian is accumulated in nworld-dependent atomic groups) to its solo (nworld=1) trajectory and to its trajectory in the permuted batch, incl. "
   "ne/nf/nl/nefc, contact multiset, solver_niter; evaluation = one (world, step); non-trivial = worlds differ in contact count and some world has nefc>0"
 )
@@ -33,6 +33,9 @@ def strategy(tier):
       perm_seed=st.integers(0, 1000),
       state_seed=st.integers(0, 10**6),
       nstep=st.integers(1, 6),
+      # sleeping enabled (Newton): a drawn fraction of each world's islands / unconstrained trees starts asleep, differently per world, so that worlds wake
+      # (by contact, in the second collision pass) at different steps
+      sleep=st.sampled_from([None, None, 0.5, 0.8]),
     )
   )
 
@@ -41,6 +44,9 @@ def snapshot(m, d, w):
   c = H.contacts(d, w)
   order = H.contact_sort_key(c)
   out = {k: getattr(d, k).numpy()[w].copy() for k in _FIELDS}
+  if d.tree_awake.shape[1]:
+    out["tree_awake"] = d.tree_awake.numpy()[w].copy()
+    out["tree_asleep"] = d.tree_asleep.numpy()[w].copy()
   out["_efc"] = lambda: H.efc_dense(m, d, w)  # evaluated by compare() right after the snapshot, only when qfrc_constraint is not bit-identical
   out.update(
     ne=int(d.ne.numpy()[w]), nf=int(d.nf.numpy()[w]), nl=int(d.nl.numpy()[w]), nefc=int(d.nefc.numpy()[w]), niter=int(d.solver_niter.numpy()[w]),
@@ -68,6 +74,9 @@ def compare(rec, a, b, what, reassoc=False, **ctx):
       rec.violation(f"niter differs: {a['niter']} vs {b['niter']}", sig=f"{what}:niter", **ctx)
     elif a["niter"] != b["niter"]:
       rec.notes["niter_off_by_one"] += 1
+  for k in ("tree_awake", "tree_asleep"):
+    if k in a and k in b:
+      check_equal(rec, k, a[k], b[k], sig=f"{what}:{k}", **ctx)
   check_equal(rec, "contact.geom", a["cgeom"], b["cgeom"], sig=f"{what}:contacts", **ctx)
   for k in _FIELDS + ["cdist", "cpos"]:
     if a[k].shape == b[k].shape and np.array_equal(a[k], b[k], equal_nan=True):
@@ -99,13 +108,17 @@ def compare(rec, a, b, what, reassoc=False, **ctx):
 def check(case, rec):
   cfg = dict(case["cfg"])
   cfg["option"] = dict(case["opt"])
+  sleeping = case.get("sleep") is not None
+  if sleeping:
+    cfg["option"]["solver"] = "Newton"
+    cfg["option"]["flags"] = dict(sleep="enable")
   mjm = H.compile_spec(gen.make_spec(cfg))
   if mjm.nv == 0:
     raise Reject("nv=0")
   m = H.put_model(mjm)
   n = case["nworld"]
   g = np.random.default_rng(case["state_seed"])
-  states = [H.rand_state(mjm, case["state_seed"] + 101 * w, sigma=0.2 * (w % 3), vel=0.5 * w, applied=(w % 2 == 1)) for w in range(n)]
+  states = [H.rand_state(mjm, case["state_seed"] + 101 * w, sigma=0.2 * (w % 3), vel=0.5 * w, applied=(w % 2 == 1) and not sleeping) for w in range(n)]
   for w in range(n):
     if mjm.neq:
       states[w]["eq_active"] = g.uniform(size=mjm.neq) < 0.6  # equality activation is per-world state
@@ -117,11 +130,41 @@ def check(case, rec):
   D = H.make_data(mjm, nworld=n, **caps)
   P = H.make_data(mjm, nworld=n, **caps)
   S = [H.make_data(mjm, nworld=1, **caps) for _ in range(n)]
+  asleep = None
+  if sleeping and mjm.ntree:
+    from mujoco_warp._src import sleep as mjw_sleep
+
+    # per world: islands found by a forward pass of the solo copy; a drawn subset is put to sleep the way sleep_test.py does it (tree_asleep cycles, zero velocity)
+    asleep = np.full((n, mjm.ntree), mjw_sleep.K_AWAKE_VAL, dtype=np.int32)
+    for w in range(n):
+      H.set_data(S[w], [states[w]])
+      mjw.forward(m, S[w])
+      ti = S[w].tree_island.numpy()[0] if S[w].tree_island.shape[1] else np.full(mjm.ntree, -1)
+      groups = {}
+      for t in range(mjm.ntree):
+        groups.setdefault(("i", int(ti[t])) if ti[t] >= 0 else ("t", t), []).append(t)
+      qvel = np.array(states[w]["qvel"], dtype=np.float64)
+      for key in sorted(groups):
+        if g.uniform() < case["sleep"] * (0.5 + 0.5 * (w % 2)):
+          grp = groups[key]
+          for k, t in enumerate(grp):
+            asleep[w, t] = grp[(k + 1) % len(grp)]
+            a = int(mjm.tree_dofadr[t])
+            qvel[a : a + int(mjm.tree_dofnum[t])] = 0.0
+      states[w]["qvel"] = H.f32(qvel)
   H.set_data(D, states)
   H.set_data(P, [states[i] for i in perm])
   for w in range(n):
     H.set_data(S[w], [states[w]])
-  reassoc = bool(m.is_sparse) and case["opt"]["solver"] == "Newton"
+  if asleep is not None:
+    D.tree_asleep.assign(asleep)
+    P.tree_asleep.assign(asleep[perm])
+    mjw_sleep.update_sleep(m, D)
+    mjw_sleep.update_sleep(m, P)
+    for w in range(n):
+      S[w].tree_asleep.assign(asleep[w : w + 1])
+      mjw_sleep.update_sleep(m, S[w])
+  reassoc = bool(m.is_sparse) and cfg["option"]["solver"] == "Newton"
   ncon = set()
   any_efc = False
   for s in range(case["nstep"]):
@@ -157,6 +200,7 @@ def check(case, rec):
     H.set_state(m, P, mjm, st[perm])
     for w in range(n):
       H.set_state(m, S[w], mjm, st[w : w + 1])
-  rec.cls(f"integrator:{case['opt']['integrator']}", f"solver:{case['opt']['solver']}", f"sparse:{bool(m.is_sparse)}", f"distinct_ncon:{len(ncon) > 1}")
+  rec.cls(f"sleep:{sleeping}")
+  rec.cls(f"integrator:{case['opt']['integrator']}", f"solver:{cfg['option']['solver']}", f"sparse:{bool(m.is_sparse)}", f"distinct_ncon:{len(ncon) > 1}")
   if len(ncon) > 1 and any_efc:
     rec.nt()
